@@ -103,9 +103,10 @@ def Quiescent (c : Config K V) : Prop :=
     `next` names the following leaf in order and the last one's is nil. -/
 theorem C08_structure_concurrent (P : Params K) (tree : Tree K V) (progs : List (List (COp K V)))
     (ht : TreeOk none tree) (ho : tree.order = P.order) (hp : PadOk P) (hd : Disciplined progs)
+    (hdel : 4 ≤ tree.order ∨ NoDelete progs)
     (c : Config K V) (hr : Reachable (Config.init P tree progs) c) :
     TreeOk (holeOf c.threads) c.tree :=
-  (reachable_cinv P tree progs ht ho hp hd c hr).s.tree
+  (reachable_cinv P tree progs ht ho hp hd hdel c hr).s.tree
 
 /-- **C08 (quiescence).** When no operation is in flight there is no hole: the structural
     shape invariant holds with the full minimum occupancy for every non-root node. (The
@@ -114,9 +115,10 @@ theorem C08_structure_concurrent (P : Params K) (tree : Tree K V) (progs : List 
     key-order invariant, see C03.) -/
 theorem C08_structure_quiescent (P : Params K) (tree : Tree K V) (progs : List (List (COp K V)))
     (ht : TreeOk none tree) (ho : tree.order = P.order) (hp : PadOk P) (hd : Disciplined progs)
+    (hdel : 4 ≤ tree.order ∨ NoDelete progs)
     (c : Config K V) (hr : Reachable (Config.init P tree progs) c) (hq : Quiescent c) :
     TreeOk none c.tree := by
-  have h := C08_structure_concurrent P tree progs ht ho hp hd c hr
+  have h := C08_structure_concurrent P tree progs ht ho hp hd hdel c hr
   have : holeOf c.threads = none := by
     apply holeOf_all_none
     intro b hb
@@ -131,9 +133,10 @@ theorem C08_structure_quiescent (P : Params K) (tree : Tree K V) (progs : List (
 theorem C08_ordering_concurrent (lt : K → K → Bool) (P : Params K) (tree : Tree K V) (progs : List (List (COp K V)))
     (hkp : KParams lt P) (ht : TreeOk none tree) (hord : OrdTree lt tree) (hsep : SepTree lt tree)
     (ho : tree.order = P.order) (hp : PadOk P) (hd : Disciplined progs)
+    (hdel : 4 ≤ tree.order ∨ NoDelete progs)
     (c : Config K V) (hr : Reachable (Config.init P tree progs) c) :
     OrdTree lt c.tree ∧ TreeOk (holeOf c.threads) c.tree :=
-  let h := reachable_kfinv' lt P tree progs hkp ht hord hsep ho hp hd c hr
+  let h := reachable_kfinv' lt P tree progs hkp ht hord hsep ho hp hd hdel c hr
   ⟨h.kinv.ord, h.cinv.s.tree⟩
 
 /-- **C08 (quiescence): the whole shape invariant.** With no operation in flight: structure
@@ -141,10 +144,11 @@ theorem C08_ordering_concurrent (lt : K → K → Bool) (P : Params K) (tree : T
 theorem C08_shape_quiescent (lt : K → K → Bool) (P : Params K) (tree : Tree K V) (progs : List (List (COp K V)))
     (hkp : KParams lt P) (ht : TreeOk none tree) (hord : OrdTree lt tree) (hsep : SepTree lt tree)
     (ho : tree.order = P.order) (hp : PadOk P) (hd : Disciplined progs)
+    (hdel : 4 ≤ tree.order ∨ NoDelete progs)
     (c : Config K V) (hr : Reachable (Config.init P tree progs) c) (hq : Quiescent c) :
     OrdTree lt c.tree ∧ TreeOk none c.tree :=
-  ⟨(C08_ordering_concurrent lt P tree progs hkp ht hord hsep ho hp hd c hr).1,
-   C08_structure_quiescent P tree progs ht ho hp hd c hr hq⟩
+  ⟨(C08_ordering_concurrent lt P tree progs hkp ht hord hsep ho hp hd hdel c hr).1,
+   C08_structure_quiescent P tree progs ht ho hp hd hdel c hr hq⟩
 
 end Gobptree.Conc
 
